@@ -74,3 +74,17 @@ Proof.
   intros Hn. exists (-1). unfold symbolise_unguarded.
   replace (-1 <? n_bins) with true by (symmetry; apply Z.ltb_lt; lia). lia.
 Qed.
+
+(* ---------- int index products ----------
+   the index-addressed routines compute i*N+j in C `int`: no signed overflow
+   (undefined behaviour) while the arrays have fewer than 2^31 elements *)
+Theorem int_index_fits R C i j : 0 <= i < R -> 0 <= j < C -> R * C <= 2147483647 ->
+  0 <= i * C + j <= 2147483647 /\ 0 <= i * C <= 2147483647.
+Proof.
+  intros Hi Hj H. assert (i * C + j < R * C) by (apply idx_bound; lia).
+  assert (0 <= i * C) by nia. lia.
+Qed.
+(* a square N x N array: up to N = 46340 *)
+Corollary int_index_fits_square N i j : 0 <= i < N -> 0 <= j < N -> N <= 46340 ->
+  0 <= i * N + j <= 2147483647.
+Proof. intros Hi Hj H. apply (int_index_fits N N i j Hi Hj). nia. Qed.
